@@ -39,7 +39,7 @@ func gen18(seed int64, tier string) []drv.Case {
 	r := gen.Rand(seed, "c18")
 	n := 300
 	if tier == "thorough" {
-		n = 20000
+		n = 80000
 	}
 	var cs []drv.Case
 	profiles := []string{"mixed", "churn", "deep", "files", "mixed", "churn"}
@@ -276,7 +276,7 @@ func (w *world) opWrite() {
 	}
 	leaf := int(w.p.Leaf)
 	off := []int{0, len(f.content), w.r.Intn(len(f.content) + 1), len(f.content) + w.r.Intn(10), w.r.Intn(2*leaf + 1)}[w.r.Intn(5)]
-	n := []int{1, 7, leaf - 1, leaf, leaf + 1, w.r.Intn(3*leaf + 1)}[w.r.Intn(6)]
+	n := []int{1, 7, leaf - 1, leaf, leaf + 1, 1 + w.r.Intn(3*leaf)}[w.r.Intn(6)] // never empty: the kernel does not send empty writes
 	data := gen.Bytes(w.p.Seed, fmt.Sprint("w", len(w.trace)), n)
 	err := w.m.Write(f.inode, int64(off), data)
 	en := fuseh.Errno(err)
